@@ -87,8 +87,11 @@ def oracle(case, out):
     n, dflt = int(f[3]), int(f[4])
     if not hdr or not spec.unambiguous(pat):
         return []
-    if not re.fullmatch(r'[A-Za-z0-9_:*?]*', hdr):
-        return []          # headers with characters outside the header alphabet never reach the matcher through the parser
+    if not re.fullmatch(r'[A-Za-z0-9_:*?]*', hdr) and n >= 0:
+        # with a numbers array the suffix is read by strtol, which is laxer than the language (sign, blanks); such headers
+        # never reach that path through the parser because dispatch (numbers = NULL) has already rejected them.  They are
+        # judged on the numbers = NULL path only, which is the one SCPI_Match / SCPI_IsCmd / dispatch use.
+        return []
     r = spec.accepts(pat, hdr)
     if r is None:
         return []
